@@ -705,6 +705,17 @@ CO_ERR COSdoDownloadBlock(CO_SDO *srv)
 
             srv->Blk.SegCnt = 0;
             result          = CO_ERR_NONE;
+
+            /* store segments received in sequence: client restarts behind them */
+            len = (uint32_t)srv->Buf.Num;
+            if (len > 0) {
+                err = COObjWrBufCont(srv->Obj, srv->Node, srv->Buf.Start, len);
+                if (err != CO_ERR_NONE) {
+                    srv->Node->Error = CO_ERR_SDO_WRITE;
+                }
+                srv->Buf.Cur = srv->Buf.Start;
+                srv->Buf.Num = 0;
+            }
         }
     }
     return (result);
